@@ -57,13 +57,15 @@ type subProcess struct {
 	mch                    chan imessage
 }
 
-func newSubProcess(eventBuilder event.IDefinitionInstanceBuilder, idGenerator id.IGenerator, subProcessElement *schema.SubProcess) constructor {
+func newSubProcess(parentCtx context.Context, eventBuilder event.IDefinitionInstanceBuilder, idGenerator id.IGenerator, subProcessElement *schema.SubProcess) constructor {
 	return func(parentWiring *wiring) (act Activity, err error) {
 
 		flowNodeMapping := NewLockedFlowNodeMapping()
 		defer flowNodeMapping.Finalize()
 
-		ctx, cancel := context.WithCancel(context.Background())
+		// the inner tracer must not outlive the instance: a sub-process that is
+		// never reached has nobody else to cancel it
+		ctx, cancel := context.WithCancel(parentCtx)
 		subTracer := tracing.NewTracer(ctx)
 		process := &subProcess{
 			wr:                     parentWiring,
@@ -336,7 +338,7 @@ func newSubProcess(eventBuilder event.IDefinitionInstanceBuilder, idGenerator id
 				return
 			}
 			var node *harness
-			sp := newSubProcess(eventBuilder, idGenerator, element)
+			sp := newSubProcess(parentCtx, eventBuilder, idGenerator, element)
 			node, err = newHarness(wr, idGenerator, sp)
 			if err != nil {
 				return
